@@ -10,6 +10,7 @@ import (
 	"context"
 	"errors"
 	"fmt"
+	"github.com/ajitpratap0/GoSQLX/pkg/sql/token"
 	"reflect"
 	"sort"
 	"strings"
@@ -229,6 +230,16 @@ const (
 	SQLRecovery  = "SELECT FROM WHERE;\nSELECT a FROM t;\nINSERT INTO;\nSELECT b FROM u"
 )
 
+// handBuiltBad returns the parser tokens of "SELECT a FROM t WHERE" (a statement cut after WHERE) plus EOF.
+func handBuiltBad() []token.Token {
+	_, toks, err := parser.ParseBytesWithTokens([]byte("SELECT a FROM t WHERE b = 1"))
+	if err != nil || len(toks) < 6 {
+		return nil
+	}
+	out := append([]token.Token{}, toks[:5]...)
+	return append(out, toks[len(toks)-1])
+}
+
 // ParserProbes returns the probe set for parsers.  Each field of Parser
 // changes at least one answer: dialect (limit, dialect), strict (empties),
 // positions (err-nopos, ctx-empty, recovery), depth (nest-max), ctx (every
@@ -263,6 +274,16 @@ func ParserProbes() []PProbe {
 			return Tree(p.ParseContextFromModelTokens(context.Background(), valid))
 		}},
 		{"recovery", func(p *parser.Parser) string { return Recovery(p.ParseWithRecoveryFromModelTokens(rec)) }},
+		// the public ParseWithPositions with conversion results built by hand (the type is exported and has no constructor):
+		// no position table, and a table shorter than the token list - the location reported must come from this call
+		{"err-handbuilt-nomap", func(p *parser.Parser) string {
+			return Tree(p.ParseWithPositions(&parser.ConversionResult{Tokens: handBuiltBad()}))
+		}},
+		{"err-handbuilt-shortmap", func(p *parser.Parser) string {
+			toks := handBuiltBad()
+			return Tree(p.ParseWithPositions(&parser.ConversionResult{Tokens: toks, PositionMapping: []parser.TokenPosition{
+				{OriginalIndex: 0, Start: models.Location{Line: 1, Column: 1}, End: models.Location{Line: 1, Column: 7}}}}))
+		}},
 		{"dialect", func(p *parser.Parser) string { return p.Dialect() }},
 	}
 }
